@@ -69,6 +69,7 @@ func storesToField(p *Prog, typ, field string) []*StoreSite { return p.Stores(ty
 
 func runC05(c *Ctx) {
 	p := c.P
+	sharedDigestRule(c, p, "R7", "transports/obfs4", "transports/obfs4/framing")
 	dec := p.Func("transports/obfs4/framing:(*Decoder).Decode")
 	o := c.Obl("R0", "anchors", "the frame decoder (the function calling secretbox.Open) exists")
 	if dec == nil {
@@ -654,16 +655,22 @@ func mutatesBetween(p *Prog, a, b ssa.Instruction, obj ssa.Value) bool {
 
 // c05ReadErr: R5 — phi-web analysis of the error returned by obfs4Conn.Read.
 func c05ReadErr(c *Ctx, p *Prog, rule string) {
-	fn := p.Func("transports/obfs4:(*obfs4Conn).Read")
-	ob := c.Obl(rule, "transports/obfs4:(*obfs4Conn).Read#error-priority", "Read returns the error of the last readPackets call unless that error is nil or the retry sentinel: every other value (nil, the buffer's own error) can enter the returned error only where the pending error is known to be nil or ErrAgain")
+	readErrPriority(c, p, rule, "transports/obfs4:(*obfs4Conn).Read", "(*$M/transports/obfs4.obfs4Conn).readPackets")
+}
+
+// readErrPriority: the phi-web analysis for any Read built as "loop on readPackets, then serve
+// from the decoded buffer" (obfs4, ScrambleSuit).
+func readErrPriority(c *Ctx, p *Prog, rule, fnKey, rpID string) {
+	fn := p.Func(fnKey)
+	ob := c.Obl(rule, fnKey+"#error-priority", "Read returns the error of the last readPackets call unless that error is nil or the retry sentinel: every other value (nil, the buffer's own error) can enter the returned error only where the pending error is known to be nil or ErrAgain")
 	if fn == nil {
-		ob.Undecide("obfs4Conn.Read not found")
+		ob.Undecide("%s not found", fnKey)
 		return
 	}
 	c.Touch(p.FuncKey(fn))
 	ff := p.Facts(fn)
 	var E *ssa.Call
-	for _, call := range p.CallsIn(fn, M("(*$M/transports/obfs4.obfs4Conn).readPackets")) {
+	for _, call := range p.CallsIn(fn, M(rpID)) {
 		if cv, ok := call.(*ssa.Call); ok {
 			E = cv
 		}
